@@ -65,7 +65,7 @@ fn c18_slice_string_negative() {
 }
 }
 
-// @harness id=c18_codepoint_char_inverse props=C18,C01:thorough tier=quick cap=1500
+// @harness id=c18_codepoint_char_inverse props=C18,C01:thorough tier=thorough cap=1500
 // @desc std.char and std.codepoint at their Rust entry points: std.char(n) succeeds exactly when trunc(n) is a Unicode scalar value and then std.codepoint(std.char(n)) == trunc(n); surrogates, negative numbers and numbers above 0x10FFFF are errors; std.codepoint of a two-character string is an error
 // @bound all finite doubles for std.char; all scalar values; strings of 1 and 2 characters
 // @funcs Evaluator::do_std_char, Evaluator::do_std_codepoint, ValueData::from_char, float::try_to_u32
@@ -99,7 +99,7 @@ fn c18_codepoint_char_inverse() {
 }
 }
 
-// @harness id=c18_length_counts_chars props=C18 tier=quick cap=1500
+// @harness id=c18_length_counts_chars props=C18 tier=thorough cap=1500
 // @desc std.length on a string of two arbitrary characters is 2 whatever their UTF-8 widths (2..8 bytes), and std.codepoint of such a string is an error (not single-character)
 // @bound strings of 2 arbitrary Unicode scalar values
 // @funcs Evaluator::do_std_length, Evaluator::do_std_codepoint
@@ -129,7 +129,7 @@ fn c18_length_counts_chars() {
 }
 }
 
-// @harness id=c18_join_str_item props=C18 tier=quick cap=1500
+// @harness id=c18_join_str_item props=C18 tier=thorough cap=1500
 // @desc one step of std.join with a string separator (do_std_join_str_item) from any reachable pre-state - accumulator "" or "a", the first-item flag set or not (set implies an empty accumulator, but an empty accumulator does not imply the flag: a leading "" item clears it), item null / "" / "b": null items are skipped; otherwise the separator is inserted exactly when an item has been appended before (flag clear), also after leading empty strings, so that std.join(c, std.split(s, c)) == s for s starting with c
 // @bound accumulator in {"", "a"}, item in {null, "", "b"}, separator ","
 // @funcs Evaluator::do_std_join_str_item
